@@ -1524,7 +1524,18 @@ func TestVerif_C09_Attrs(t *testing.T) {
 	// reduced attribute factor for the secondary sweep: nothing, everything (both variants of the RR attributes), and singles
 	var reduced []c09AttrSet
 	if thorough {
-		reduced = sets
+		// every subset with at most two attributes present (all their variants), plus the two full sets
+		for _, a := range sets {
+			n := 0
+			for _, b := range []bool{a.LP, a.MED, a.Orig != 0, a.CL != 0, a.UT != 0, a.UNT, a.Comm} {
+				if b {
+					n++
+				}
+			}
+			if n <= 2 || n == 7 {
+				reduced = append(reduced, a)
+			}
+		}
 	} else {
 		reduced = []c09AttrSet{
 			{},
